@@ -23,7 +23,12 @@ import (
 	"time"
 )
 
-const verifRoot = "/verif"
+var verifRoot = func() string {
+	if v := os.Getenv("VERIF_ROOT"); v != "" {
+		return v
+	}
+	return "/verif"
+}()
 
 type variant struct {
 	Name     string `json:"name"`
